@@ -13,9 +13,9 @@ COMMON_NOTE = ("Trusted base: the harness' own reference model (numpy only, no d
                "numpy/scipy/h5py/py-pde as environment; verdict holds for every element of the declared finite space only.")
 
 X = " Complete enumeration of the declared finite space on the real implementation (stateless exploration), no sampling; tiers differ only in the size of the declared space."
-reg("C01", "All lattice placements (position class x sub-cell offset per axis, radii, periodicity masks, spacings, origins, 1-2 droplets) of spherical droplets on Cartesian grids and radius/z lattices on polar, spherical and cylindrical grids are rendered and located; count, exact covered-cell volume, half-cell centre bound and in-box are judged against an own covered-set model." + X,
+reg("C01", "All lattice placements (position class x sub-cell offset per axis, radii, periodicity masks, spacings, origins, 1-2 droplets) of spherical droplets on Cartesian grids and radius/z lattices on polar, spherical and cylindrical grids are rendered and located; count, exact covered-cell volume, half-cell centre bound and in-box are judged against an own covered-set model. Also annular polar/spherical grids, cylindrical z ranges on both sides of 0, elongated boxes with pairs separated by the other axis' length. Histories: grids that differ in one attribute (or caller-owned option dicts) are used one after the other in a freshly forked process, in every order, each call judged by the same oracle." + X,
     COMMON_NOTE + " The half-cell bound is checked on the lattice, not proved for the continuum; cylindrical periodic-z droplets stay away from the z boundary.", "bounded exhaustive input enumeration vs. independent covered-cell model")
-reg("C02", "Every binary image of the declared small grids under every periodicity mask (plus cylindrical grids) is analysed and compared with an independent union-find labelling that carries integer period offsets (components, winding, unwrapped centre of mass): bijection, volume, position, disjointness, omission rule, empty result." + X,
+reg("C02", "Every binary image of the declared small grids under every periodicity mask (plus cylindrical grids) is analysed and compared with an independent union-find labelling that carries integer period offsets (components, winding, unwrapped centre of mass): bijection, volume, position, disjointness, omission rule, empty result. Plus all on-axis bodies of revolution over a width alphabet on 8x6..8x10 cylindrical grids and alternating-periodicity histories in fresh processes; the cylindrical known finding only matches outcomes equal to the non-periodic analysis." + X,
     COMMON_NOTE + " Exhaustive up to 16-20 cells; larger images only through a fixed catalogue.", "exhaustive enumeration of all binary images vs. union-find reference")
 reg("C06", "All frame histories up to depth 3 (5 for single-droplet frames) over a droplet-type lattice, for every tracker configuration (method x cut-off x metric x time variant), are fed to the tracker on fresh objects; the returned tracks are compared as a multiset partition of the input, with alignment, copy, gap-free and input-unmodified clauses." + X,
     COMMON_NOTE, "bounded exhaustive exploration of operation histories (frames fed) vs. reference partition model")
@@ -27,26 +27,26 @@ reg("C11", "All ordered operand pairs over position/radius/width alphabets in 1-
     COMMON_NOTE + " Symbolic 'for all positive reals' is not decided.", "bounded exhaustive input enumeration vs. conservation-law reference")
 reg("C12", "Every (dimension, value on a 30-decade lattice, argument form) combination is run through every variant of every conversion and the droplet accessors on the real code and compared with the closed-form definitions." + X,
     COMMON_NOTE + " Symbolic 'for all positive reals' is not decided.", "bounded exhaustive input enumeration against reference formulas")
-reg("C16", "All non-zero fields over a 3-letter alphabet on small periodic grids (1-3 dim, even/odd) are transformed by every scaling, cyclic shift, reflection, axis permutation and regridding of a menu and compared with a direct DFT from the definition, Parseval and the exact wave-number grid; the smoothed variant is checked for the same invariances." + X,
+reg("C16", "All non-zero fields over a 3-letter alphabet on small periodic grids (1-3 dim, even/odd) are transformed by every scaling, cyclic shift, reflection, axis permutation and regridding of a menu and compared with a direct DFT from the definition, Parseval and the exact wave-number grid; the smoothed variant is checked for the same invariances. Grid-sequence histories (same field on equal-shape grids of different spacings in every order, fresh process) included." + X,
     COMMON_NOTE, "exhaustive enumeration of all small fields x symmetry group vs. direct-DFT reference")
 
-reg("C03", "Every (droplet class x compatible grid x width x level pair x centre class x radius x amplitude pattern) combination of the declared alphabets is rendered on the real code; every cell of every field is judged against an own cell-centre / minimal-image / harmonic-series model (finite, range, inside<=>beyond midpoint, indicator, monotone, tanh profile), every whole-cell shift of a menu against np.roll and every permutation of <= 3 droplets against the clipped sum." + X,
+reg("C03", "Every (droplet class x compatible grid x width x level pair x centre class x radius x amplitude pattern) combination of the declared alphabets is rendered on the real code; every cell of every field is judged against an own cell-centre / minimal-image / harmonic-series model (finite, range, inside<=>beyond midpoint, indicator, monotone, tanh profile), every whole-cell shift of a menu against np.roll and every permutation of <= 3 droplets against the clipped sum. Extreme widths (1e-3, 1e3 cells) included. Histories: grids that differ in one attribute (or caller-owned option dicts) are used one after the other in a freshly forked process, in every order, each call judged by the same oracle." + X,
     COMMON_NOTE + " Cells within 1e-9 of the interface or of half a period (ambiguous direction) are screened and counted; periodic-z cylindrical wrapping is a recorded dependency finding (KF-C03-cyl-periodic-z).", "bounded exhaustive input enumeration vs. independent per-cell geometry model")
-reg("C04", "Every (image class x candidate class/mode count x candidate state x grid x intensity handling) combination of the declared catalogue is refined by the real refine_droplet while the least-squares objective is observed at the module seam (start and end cost); class, bounds, symmetry-constrained coordinates, box wrapping, image bytes, fixed point at the truth and the harness' own squared deviation are judged for every case." + X,
+reg("C04", "Every (image class x candidate class/mode count x candidate state x grid x intensity handling) combination of the declared catalogue is refined by the real refine_droplet while the least-squares objective is observed at the module seam (start and end cost); class, bounds, symmetry-constrained coordinates, box wrapping, image bytes, fixed point at the truth and the harness' own squared deviation are judged for every case. The plural entry point must agree bitwise; all ordered pairs of probe fits handed one options dict must equal fits with fresh options." + X,
     COMMON_NOTE + " The objective observed is the one handed to scipy's least_squares; the optimiser itself is environment.", "bounded exhaustive input enumeration with optimiser seam observation")
-reg("C05", "Every placement of the declared lattice (position class x sub-cell offset per axis, masks, radii, widths, 1-2 droplets) x threshold rule x intensity option on Cartesian 1-3-D, polar, spherical and cylindrical grids is rendered, located with refinement and compared with the originals (count, position, radius, width to 1e-4)." + X,
+reg("C05", "Every placement of the declared lattice (position class x sub-cell offset per axis, masks, radii, widths, 1-2 droplets) x threshold rule x intensity option on Cartesian 1-3-D, polar, spherical and cylindrical grids is rendered, located with refinement and compared with the originals (count, position, radius, width to 1e-4). Strongly non-square boxes, big+small pairs, annular grids, cylindrical z ranges excluding 0, and shared-refine_args histories (ordered pairs/triples of intensity maps, one dict) are part of the space." + X,
     COMMON_NOTE + " Automatic levels without fitting are outside the statement and not judged.", "bounded exhaustive input enumeration vs. ground-truth parameters")
 reg("C08", "All collections over a catalogue of droplet values of every class/dimension (emulsions of size 0-3, time courses of <= 3 frames plus a 12-frame course, tracks of length 0-3, track lists of <= 3 tracks, every time variant, all mixed-class ordered pairs, all write-A-write-B-read histories on one path) are written and read back through the real HDF5 path and compared by the library's equality and by an own bit-level comparison." + X,
     COMMON_NOTE + " h5py/HDF5 are environment.", "bounded exhaustive exploration of write/read histories vs. bit-level value model")
-reg("C09", "All binary images of the small grids plus a field catalogue on every grid family x the full option product (threshold rule x minimal radius x width x modes x refine x refine_args), a droplet catalogue x grid catalogue for rendering, all frame histories of the tracking alphabet x tracker configurations, and 3-frame tracker sequences are executed; only documented errors may be raised and all returned parameters must be finite." + X,
+reg("C09", "All binary images of the small grids plus a field catalogue on every grid family x the full option product (threshold rule x minimal radius x width x modes x refine x refine_args), a droplet catalogue x grid catalogue for rendering, all frame histories of the tracking alphabet x tracker configurations, and 3-frame tracker sequences are executed; only documented errors may be raised and all returned parameters must be finite. Zero widths, a caller-owned optimiser-options dict and requests with several worker processes (controlled pool) are part of the option product." + X,
     COMMON_NOTE + " Refinement of arbitrary clusters is restricted to the 3x3 (quick) / 3x4 and 2x2x3 (thorough) image sets because a fit costs ~0.25 s.", "bounded exhaustive input and history enumeration with exception/finiteness oracle")
 reg("C13", "Every (class x radius x centre x amplitude pattern [zero, all singles, all pairs, fixed triples] x amplitude scale x direction lattice) combination is evaluated on the real classes and compared with an own harmonic series, exact differential geometry of r = rho(direction) by 4th-order differences, and Gauss-Legendre x trapezoid quadrature; mutation sequences (set amplitudes / radius, re-query) check that cached quantities follow the state." + X,
     COMMON_NOTE + " 'To first order' is decided at eps = 1e-4 and 1e-5 with stated constants (bounded surrogate).", "bounded exhaustive input enumeration vs. independent differential-geometry / quadrature reference")
-reg("C14", "State machine initialize -> handle* -> finalize of DropletTracker and LengthScaleTracker: all field sequences of length 0-3 (4 thorough) over a 6-field alphabet on three grid families x time variants x settings menu x source selection x pre-filled time course are fed to the real trackers; after every prefix the recorded data is compared with the offline analysis of a MemoryStorage with the same fields, and the written files are read back; two real solver runs serve as conformance pass." + X,
+reg("C14", "State machine initialize -> handle* -> finalize of DropletTracker and LengthScaleTracker: all field sequences of length 0-3 (4 thorough) over a 6-field alphabet on three grid families x time variants x settings menu x source selection x pre-filled time course are fed to the real trackers; after every prefix the recorded data is compared with the offline analysis of a MemoryStorage with the same fields, and the written files are read back; two real solver runs serve as conformance pass. A second reference analyses every frame on its own with a deep copy of the settings; equal consecutive time stamps and frames on other intensity levels are in the alphabet." + X,
     COMMON_NOTE + " The offline reference is the library's own from_storage/get_length_scale: the property is the agreement between the two paths.", "bounded exhaustive exploration of tracker event histories vs. offline reference path")
-reg("C17", "Plane waves with every admissible wave vector on periodic grids in 1-3 dimensions x amplitude x offset x phase, multi-droplet and non-convex binary fields and all small two-letter fields x the spacing menu over five decades x field scalings x all cyclic shifts of a menu x the three methods are evaluated and compared (stretch covariance, scale/shift invariance, peak location within half a Fourier bin, volume per detected droplet from an own count)." + X,
+reg("C17", "Plane waves with every admissible wave vector on periodic grids in 1-3 dimensions x amplitude x offset x phase, multi-droplet and non-convex binary fields and all small two-letter fields x the spacing menu over five decades x field scalings x all cyclic shifts of a menu x the three methods are evaluated and compared (stretch covariance, scale/shift invariance, peak location within half a Fourier bin, volume per detected droplet from an own count). Spacings span 1e-9..1e6; anisotropic equal-count grids, bar families and every shift of every 3x4 image for the counting method." + X,
     COMMON_NOTE, "bounded exhaustive input enumeration vs. scaling-law reference")
-reg("C18", "Every image over a 3-4 letter dyadic alphabet on the declared small grids of every family x every threshold rule x exactly representable positive affine maps x minimal radii is located and compared with the result for the binary image 'data > T_ref', where T_ref comes from the rule's definition (Otsu: direct between-class variance over every split of the 256-bin histogram)." + X,
+reg("C18", "Every image over a 3-4 letter dyadic alphabet on the declared small grids of every family x every threshold rule x exactly representable positive affine maps x minimal radii is located and compared with the result for the binary image 'data > T_ref', where T_ref comes from the rule's definition (Otsu: direct between-class variance over every split of the 256-bin histogram). DropletTracker and EmulsionTimeCourse.from_storage are driven as further entry points on sequences of differently scaled frames." + X,
     COMMON_NOTE + " The droplets of a given binary image are taken from the library's mask routine (decided by C02).", "exhaustive enumeration of all small multi-level images vs. threshold-definition reference")
 reg("C19", "The complete product grid family/dimension/periodicity x modes 0..4 x width {None, 0, value} x refine x threshold rule x image catalogue {empty, one, two, droplet + speck} is located and every result's class, amplitude count, carried width, shared layout (Emulsion.data formable) and dimension are compared with the statement; modes in 1-D must raise the documented ValueError." + X,
     COMMON_NOTE, "exhaustive enumeration of the finite configuration space")
